@@ -29,6 +29,11 @@ def judge_case(prop, case, body):
 
         o = R.run_real([case], repo_root=root)[0]
         return {"listed": o.get("result"), "reordered": o.get("reordered")}, [b[0] for b in cmdprops.judge_reorder(case, o)]
+    if isinstance(case, dict) and "class" in case and "inputs" in case and body.get("obligation", "").endswith("bounded:inputs-unchanged-when-rejected"):
+        from . import replay as R
+
+        o = R.run_real([case], repo_root=root)[0]
+        return {"before": o.get("inputs_before"), "after": o.get("inputs_after")}, (["frame"] if o.get("inputs_after") != o.get("inputs_before") else [])
     if isinstance(case, dict) and "class" in case and "inputs" in case and body.get("obligation", "").endswith("bounded:shape-of-every-input"):
         from . import cmdprops, replay as R
 
@@ -61,6 +66,11 @@ def judge_case(prop, case, body):
         c = dict(case, packages=libprops.PKGS)
         o = libprops.run_real([c], root)[0]
         return o, [b[0] for b in libprops.judge(c, o)]
+    if isinstance(case, dict) and str(case.get("kind", "")).endswith("_reread"):
+        from . import iocases
+
+        o = iocases.run_real([case], root)[0]
+        return o, [b[0] for b in iocases.judge_reread(case, o)]
     if isinstance(case, dict) and str(case.get("kind", "")).startswith(("csv_", "nc_")):
         from . import iocases
 
